@@ -118,3 +118,20 @@ package lq
 //@   property C15
 //@   requires globalLQ != nil && globalLQ.client != nil && globalLQ.client.dbWrite != nil && globalLQ.client.dbWriteSqlc != nil && batch != nil
 //@   ensures [forwarded] closed(done(*ctx)) || (sql.nCommits() == old(sql.nCommits()) + 1 && sqlc_model.nDeletes() >= old(sqlc_model.nDeletes()) + old(len(batch.URLs))) // C15: every finished seed is acknowledged to the queue
+
+// ---------------------------------------------------------------------------------------
+// C04 (queue half): opening the queue of a job leaves no row handed out. Init runs at every
+// start on whatever lq.db the previous process left behind - killed at any instant or stopped
+// gracefully - so the clause is stated for every entry value of the ghost set dbHandedOut.
+//@ func Init
+//@   property C04
+//@   replay c04_lqInit:no-stranded
+//@   requires config.config != nil
+//@   ensures [no-stranded] result1 == nil ==> forall(k, string, !sqlc_model.handedOut(k)) // C04: every URL that was in the queue and had not been reported finished is crawled again (none stays stranded as handed-out)
+
+// resetClaimed: one UPDATE statement; its SQL meaning is assumed here (every CLAIMED row becomes
+// FRESH when the statement succeeds), exactly like the generated query methods in sqlc_model.
+//@ func resetClaimed
+//@   opaque
+//@   modifies mapof(dbHandedOut)
+//@   ensures result == nil ==> forall(k, string, !sqlc_model.handedOut(k))
